@@ -188,7 +188,7 @@ class Endp:
         self.v6 = len(cip) == 16
         # fuzz: a random.Random; when set, header fields that must not influence any answer are drawn at random per
         # frame (IPv4 id / TOS / DF / MF / reserved flag / TTL, IPv6 traffic class / flow label / hop limit, TCP window / urgent pointer;
-        # a datagram with MF set and offset 0 that holds the whole message is processed like any other)
+        # a datagram with MF set or a fragment offset that holds the whole message is processed like any other: the responder does not reassemble)
         self.fuzz = fuzz
 
     def l3(self, proto, l4):
@@ -208,7 +208,7 @@ class Endp:
         if r is not None and r.random() < 0.5:
             o = rnd_ip4_opts(r) if r.random() < 0.3 else b""
             return eth(self.smac, cmac, ET_IP4, ip4(self.cip, self.sip, proto, l4, ttl=r.choice([1, 2, 64, 128, 255]), ident=r.getrandbits(16),
-                                                         frag=r.choice([0, 0x4000, 0, 0x4000, 0, 0x4000, 0x2000, 0x8000, 0x6000, 0xC000]), tos=r.getrandbits(8), opts=o, ihl=5 + len(o) // 4))
+                                                         frag=r.choice([0, 0x4000, 0, 0x4000, 0, 0x4000, 0x2000, 0x8000, 0x6000, 0xC000, 0x0001, 0x00B9, 0x1FFF, 0x2001, 0x4001]), tos=r.getrandbits(8), opts=o, ihl=5 + len(o) // 4))
         return eth(self.smac, cmac, ET_IP4, ip4(self.cip, self.sip, proto, l4, ttl=self.ttl))
 
     def udp(self, sp, dp, pl, cs=None):
